@@ -1,6 +1,6 @@
 """Renderer for the scenarios of spec/ErrorMap.tla (property C12).
 
-A scenario's program is (chain, nest, tail).  The renderer is purely mechanical: one template per
+A scenario's program is (chain, nest, pre, tail).  The renderer is purely mechanical: one template per
 abstract line kind, one statement per source line.  Every original statement carries a token
 `L<n>` (n = its own line number in the file) inside an attribute name of the input object `p`,
 so that the generated line(s) produced from that statement can be recognised in the generated
@@ -104,21 +104,42 @@ class _File(object):
         return n
 
 
-def render(chain, nest, tail, modid=0):
-    """Returns dict(U=text, A=text or None, fns=[per function: file, def line, statement lines->role])."""
+PRE_LINES = {
+    # kind -> [(relative indent, text, role)]; {j} = position of the item in the prelude
+    'lam': [(0, 'g{j} = lambda z: z + p.L%d', 'prelam'),
+            (0, 'r = r + g{j}(p.L%d)', 'pre')],
+    'def': [(0, 'def h{j}(z):', 'predef'),
+            (1, 'return z + p.L%d', 'pre'),
+            (0, 'r = r + h{j}(p.L%d)', 'pre')],
+    'deflam': [(0, 'def h{j}(z):', 'predef'),
+               (1, 'w = lambda y: y + p.L%d', 'prelam'),
+               (1, 'return w(z)', 'pre'),
+               (0, 'r = r + h{j}(p.L%d)', 'pre')],
+}
+
+
+def render(chain, nest, tail, modid=0, pre=None):
+    """Returns dict(U=text, A=text or None, fns=[per function: file, def line, nested], X_stmts=line->(function, role))."""
     files = {'U': _File(PRE_U), 'A': _File(PRE_A)}
-    fns = []
     n = len(chain)
-    for i in range(1, n + 1):
-        fkey = 'A' if chain[i - 1] == 'allow' else 'U'
+    pre = pre or [[] for _ in chain]
+    fns = [None] * n
+
+    def emit_fn(i, base, fkey):
         f = files[fkey]
         if chain[i - 1] == 'dnc':
-            f.emit(0, '@dnc')
-        dl = f.emit(0, 'def f%d(p, t):' % i, i, 'def')
+            f.emit(base, '@dnc')
+        dl = f.emit(base, 'def f%d(p, t):' % i, i, 'def')
+        fns[i - 1] = dict(file=fkey, defline=dl, nested=chain[i - 1] == 'nested')
         # the module id makes the code object of every function unique to its file (malt's conversion cache
         # is keyed by code objects, and CPython code equality ignores co_filename)
-        f.emit(1, 'r = p.m%d_L%%d' % modid, i, 'filler')
-        ind = 1
+        f.emit(base + 1, 'r = p.m%d_L%%d' % modid, i, 'filler')
+        for j, kd in enumerate(pre[i - 1], 1):
+            for rel, text, role in PRE_LINES[kd]:
+                f.emit(base + 1 + rel, text.replace('{j}', str(j)), i, role)
+        if i < n and chain[i] == 'nested':
+            emit_fn(i + 1, base + 1, fkey)
+        ind = base + 1
         closers = []
         for depth, c in enumerate(nest[i - 1]):
             w = 'w%d' % depth
@@ -164,10 +185,13 @@ def render(chain, nest, tail, modid=0):
                 f.emit(cl, 'finally:')
                 f.emit(cl + 1, 'r = r + p.L%d', i, 'filler')
         if i == n and tail == 'hdr':
-            f.emit(1, 'if 1 // p.kh_L%d:', i, 'fail7')
-            f.emit(2, 'r = r + p.L%d', i, 'filler')
-        f.emit(1, 'return r + p.L%d', i, 'return')
-        fns.append(dict(file=fkey, defline=dl))
+            f.emit(base + 1, 'if 1 // p.kh_L%d:', i, 'fail7')
+            f.emit(base + 2, 'r = r + p.L%d', i, 'filler')
+        f.emit(base + 1, 'return r + p.L%d', i, 'return')
+
+    for i in range(1, n + 1):
+        if chain[i - 1] != 'nested':
+            emit_fn(i, 0, 'A' if chain[i - 1] == 'allow' else 'U')
     out = dict(fns=fns)
     for key in ('U', 'A'):
         out[key] = '\n'.join(files[key].lines) + '\n'
